@@ -14,7 +14,7 @@ import sys
 
 REPO = os.environ.get("XGCM_REPO", "/repo")
 HERE = os.path.dirname(os.path.abspath(__file__))
-GEN = os.path.join(os.path.dirname(HERE), "lean", "XgcmModel", "Gen")
+GEN = os.environ.get("XGCM_GEN_OUT") or os.path.join(os.path.dirname(HERE), "lean", "XgcmModel", "Gen")
 
 POSITIONS = ["center", "left", "right", "inner", "outer"]
 
@@ -728,6 +728,15 @@ def _analyse(fn, tainted_params, fns, writes, calls):
             e = e.value
         return e.id if isinstance(e, ast.Name) else None
 
+    def self_alias(e, T):
+        """e is rooted at self.<attr>, and that attribute was bound IN THIS FUNCTION to an object the caller can
+        see (self.x = argument): writing through it writes the caller's object, constructor or not"""
+        while isinstance(e, (ast.Subscript, ast.Attribute)):
+            if isinstance(e, ast.Attribute) and isinstance(e.value, ast.Name) and e.value.id == "self":
+                return T.get("self." + e.attr, 0) == 2
+            e = e.value
+        return False
+
     def scan_calls(node, T):
         for c in ast.walk(node):
             if not isinstance(c, ast.Call):
@@ -737,7 +746,9 @@ def _analyse(fn, tainted_params, fns, writes, calls):
                 rn = root_name(f.value)
                 if rn == "self" and is_method:
                     if isinstance(f.value, ast.Attribute) or isinstance(f.value, ast.Subscript):
-                        if fn.qual.split(".<locals>.")[0] not in SELF_WRITERS:
+                        if self_alias(f.value, T):
+                            record(c, "call", f"{ast.unparse(f.value)}.{f.attr}()")
+                        elif fn.qual.split(".<locals>.")[0] not in SELF_WRITERS:
                             record(c, "self-call", f"{ast.unparse(f.value)}.{f.attr}()")
                 elif rn != kwname and _level(f.value, T, kwname) == 2:
                     record(c, "call", f"{ast.unparse(f.value)}.{f.attr}()")
@@ -819,8 +830,18 @@ def _analyse(fn, tainted_params, fns, writes, calls):
                     if isinstance(t, (ast.Subscript, ast.Attribute)):
                         rn = root_name(t)
                         if rn == "self" and is_method:
-                            if fn.qual.split(".<locals>.")[0] not in SELF_WRITERS:
+                            direct = isinstance(t, ast.Attribute) and isinstance(t.value, ast.Name)
+                            if not direct and self_alias(base_expr(t), T):
+                                record(s, "assign", ast.unparse(t))
+                            elif fn.qual.split(".<locals>.")[0] not in SELF_WRITERS:
                                 record(s, "self-assign", ast.unparse(t))
+                            if direct and not isinstance(s, ast.AugAssign):
+                                # self.x = <expr>: remember whether the attribute now names a caller-visible object
+                                lv = _level(val, T, kwname) if val is not None else 0
+                                if lv == 2:
+                                    T["self." + t.attr] = 2
+                                else:
+                                    T.pop("self." + t.attr, None)
                         elif rn is not None and rn != kwname and _level(base_expr(t), T, kwname) == 2:
                             record(s, "assign", ast.unparse(t))
                     if isinstance(s, ast.AugAssign):
